@@ -388,6 +388,70 @@ Proof.
     + exact RS.
 Qed.
 
+(** * C. the directory-listing pattern: no path separator after the prefix *)
+Lemma no_slash_app a b : no_slash (a ++ b) = no_slash a && no_slash b.
+Proof. unfold no_slash. rewrite existsb_app, negb_orb. reflexivity. Qed.
+
+Lemma no_slash_cons x l : no_slash (x :: l) = negb (x =? SLASH) && no_slash l.
+Proof. unfold no_slash. cbn [existsb]. rewrite negb_orb. reflexivity. Qed.
+
+Lemma no_slash_spec s : no_slash s = true <-> ~ In SLASH s.
+Proof.
+  unfold no_slash. rewrite negb_true_iff. split.
+  - intros H Hin.
+    assert (E : existsb (fun c => c =? SLASH) s = true)
+      by (apply existsb_exists; exists SLASH; split; [exact Hin|apply N.eqb_refl]).
+    rewrite E in H. discriminate H.
+  - intros H. destruct (existsb (fun c => c =? SLASH) s) eqn:E; [|reflexivity].
+    apply existsb_exists in E. destruct E as (c & Hc & Ec). apply N.eqb_eq in Ec. subst c. contradiction.
+Qed.
+
+(* the digits of fmt %02d *)
+Fixpoint dec2_digits (fuel : nat) (n : N) (acc : bytes) {struct fuel} : bytes :=
+  match fuel with O => acc | S f => if n <? 10 then (48 + n) :: acc else dec2_digits f (n / 10) ((48 + n mod 10) :: acc) end.
+
+Lemma dec2_digits_eq n :
+  dec2 n = if Nat.ltb (length (dec2_digits 20 n [])) 2 then 48 :: dec2_digits 20 n [] else dec2_digits 20 n [].
+Proof. reflexivity. Qed.
+
+Lemma no_slash_dec2_digits : forall fuel n acc, no_slash acc = true -> no_slash (dec2_digits fuel n acc) = true.
+Proof.
+  induction fuel as [|f IH]; intros k acc Hacc; [exact Hacc|].
+  cbn [dec2_digits]. destruct (k <? 10) eqn:E.
+  - rewrite no_slash_cons, Hacc.
+    assert (Hne : (48 + k =? SLASH) = false) by (apply N.eqb_neq; unfold SLASH; lia). rewrite Hne. reflexivity.
+  - apply IH. rewrite no_slash_cons, Hacc.
+    assert (Hne : (48 + k mod 10 =? SLASH) = false)
+      by (apply N.eqb_neq; unfold SLASH; generalize (k mod 10); intros m; lia).
+    rewrite Hne. reflexivity.
+Qed.
+
+Lemma no_slash_dec2 n : no_slash (dec2 n) = true.
+Proof.
+  rewrite dec2_digits_eq. destruct (Nat.ltb _ 2).
+  - rewrite no_slash_cons. rewrite no_slash_dec2_digits by reflexivity. reflexivity.
+  - apply no_slash_dec2_digits. reflexivity.
+Qed.
+
+(* "vol" II "+" CC ".par2" *)
+Lemma no_slash_vol_tail i c :
+  no_slash ([118; 111; 108] ++ dec2 (N.of_nat i) ++ [43] ++ dec2 (N.of_nat c) ++ EXT_PAR2) = true.
+Proof. rewrite !no_slash_app, !no_slash_dec2. reflexivity. Qed.
+
+Lemma skipn_length_app {A} (a b : list A) : skipn (length a) (a ++ b) = b.
+Proof. induction a as [|x a IH]; [reflexivity|exact IH]. Qed.
+
+(* a volume path of Create has no separator after <base>. *)
+Lemma no_slash_vol_path basep i c :
+  no_slash (skipn (length (basep ++ [DOT]))
+                  (basep ++ [46; 118; 111; 108] ++ dec2 (N.of_nat i) ++ [43] ++ dec2 (N.of_nat c) ++ EXT_PAR2)) = true.
+Proof.
+  replace (basep ++ [46; 118; 111; 108] ++ dec2 (N.of_nat i) ++ [43] ++ dec2 (N.of_nat c) ++ EXT_PAR2)
+    with ((basep ++ [DOT]) ++ [118; 111; 108] ++ dec2 (N.of_nat i) ++ [43] ++ dec2 (N.of_nat c) ++ EXT_PAR2)
+    by (rewrite <- app_assoc; reflexivity).
+  rewrite skipn_length_app. apply no_slash_vol_tail.
+Qed.
+
 Print Assumptions io_read_fs.
 Print Assumptions io_list_fs.
 Print Assumptions load_all_fs.
@@ -397,3 +461,4 @@ Print Assumptions repair_writes.
 Print Assumptions le_words_le_bytes.
 Print Assumptions le_bytes_le_words.
 Print Assumptions repair_shards_sound.
+Print Assumptions no_slash_vol_path.
